@@ -626,6 +626,18 @@ func checkC17(w *fw.Worker, src string) *fw.Violation {
 		w.Count("traces_validated_against_impl", 1)
 	}
 	rr := compileAndRun(src, true)
+	if loopVarShadows(src) {
+		// two variables that are alive at the same time must not share a slot: for a loop variable that shadows an
+		// outer variable this shows as the outer variable being overwritten (compared with the evaluator), or - when
+		// the two have different types - as a type confusion that panics the VM
+		if v := checkC16(nil, src); (v != nil && v.Signature == "for-loopvar-shadows-outer") || rr.gopanic != "" {
+			obs := rr.gopanic
+			if v != nil {
+				obs = v.Observed
+			}
+			return viol("slot-shared:for-loopvar-shadows-outer", "a loop variable shares the storage slot of the live outer variable it shadows", "distinct slots", obs)
+		}
+	}
 	if rr.gopanic != "" {
 		return viol("vm-gopanic:"+fw.Trunc(goMsgDigits.ReplaceAllString(rr.gopanic, "#"), 60), "the VM crashed the host", "completion or a run-time error", rr.gopanic)
 	}
@@ -634,13 +646,6 @@ func checkC17(w *fw.Worker, src string) *fw.Violation {
 	}
 	if rr.vmClass == "internal" || rr.vmClass == "unknown-error" {
 		return viol("vm-internal-error", "the VM ended with an internal error", "completion or a user error", fmt.Sprint(rr.vmErr))
-	}
-	if loopVarShadows(src) {
-		// two variables that are alive at the same time must not share a slot: for a loop variable that shadows an
-		// outer variable this shows as the outer variable being overwritten (compared with the evaluator)
-		if v := checkC16(nil, src); v != nil && v.Signature == "for-loopvar-shadows-outer" {
-			return viol("slot-shared:for-loopvar-shadows-outer", "a loop variable shares the storage slot of the live outer variable it shadows", v.Expected, v.Observed)
-		}
 	}
 	if rr.vmClass == "ok" && rr.sp != rr.bc.LocalCount {
 		return viol("sp-not-restored", "the operand stack is not empty when the program ends", fmt.Sprint("sp = LocalCount = ", rr.bc.LocalCount), fmt.Sprint("sp = ", rr.sp))
